@@ -42,7 +42,7 @@ var ShortLens = []int{0, 1, 2, 11, 12, 13, 15, 16, 17, 27, 28, 29, 31, 32, 33, 4
 var ByteClasses = []string{"byte.flip", "byte.set", "byte.truncate", "byte.extend", "byte.splice", "byte.delete", "byte.insert", "byte.dup-chunk"}
 var ProtoClasses = []string{"pb.drop-field", "pb.dup-field", "pb.reorder", "pb.varint-edit", "pb.fixed-edit", "pb.len-edit",
 	"pb.bytes-empty", "pb.bytes-1", "pb.bytes-short", "pb.bytes-garbage", "pb.bytes-grow", "pb.swap-fields", "pb.swap-donor",
-	"pb.wiretype", "pb.fieldnum", "pb.nest-deep", "pb.trunc-field"}
+	"pb.wiretype", "pb.fieldnum", "pb.nest-deep", "pb.trunc-field", "pb.msg-empty"}
 
 // Random returns a pure random byte string of length 0..maxLen (biased to short).
 func Random(r *rand.Rand, maxLen int) Mutant {
@@ -402,6 +402,14 @@ func Proto(r *rand.Rand, in []byte, donor []byte, cls string) (Mutant, bool) {
 			copy(nb, s.node.Bytes)
 		}
 		s.node.Bytes, s.node.IsMsg, s.node.Children = nb, false, nil
+		path = s.path
+	case "pb.msg-empty":
+		// a sub-message that is present but empty: every optional field inside it is missing
+		s, ok := pick(filter(slots, func(s slot) bool { return s.node.IsMsg }))
+		if !ok {
+			return Mutant{}, false
+		}
+		s.node.Bytes, s.node.IsMsg, s.node.Children = []byte{}, false, nil
 		path = s.path
 	case "pb.trunc-field":
 		s, ok := pick(filter(slots, func(s slot) bool { return isLeafBytes(s) && len(s.node.Bytes) > 0 }))
